@@ -71,8 +71,18 @@ func Parse(path string) (Address, error) {
 		return nil, fmt.Errorf("unable to parse CID: %w", err)
 	}
 
-	return &address{
+	a := &address{
 		root: c,
 		path: strings.Join(parts[1:], "/"),
-	}, nil
+	}
+
+	// String() cleans what it prints: a path with parent-directory segments
+	// could replace the root by another one there, so that the address would
+	// read as another database's while carrying this root's manifest
+	printed := strings.Split(strings.TrimPrefix(a.String(), "/orbitdb/"), "/")
+	if printed[0] != c.String() {
+		return nil, fmt.Errorf("not a valid OrbitDB address: %s: the path does not stay below the database root", path)
+	}
+
+	return a, nil
 }
